@@ -15,9 +15,9 @@ CLAIMS = {
                 ref='§4 C08'),
 }
 
-CLAIMS['C19'] = dict(level='proof', technique='language equivalence of deterministic automata: regex -> NFA -> DFA vs. validator (transition table read from the literal / abstract interpretation of the boolean slice expression), product construction with shortest distinguishing string',
-    text='Decides, for every (check_fn, regex) pair in the CHARACTER_DATA literal, equality of the accepted language with the language of the published regex over ALL byte strings (not samples), and absence of index panics in the validator; refuted pairs are reported with a shortest distinguishing string (4 such pairs on the pinned tree are listed in known_findings.json; 2 were repaired by fix: commits).',
-    note='Trusted: syn + asd-syn, the regex parser (XSD semantics: "." excludes \\n and \\r) and automata library, the validator shape recognisers (fail closed outside the fragment). obligations = pairs; discharged = pairs proven equal; the difference is exactly the known findings.',
+CLAIMS['C19'] = dict(level='proof', technique='language equivalence of deterministic automata: regex -> NFA -> DFA vs. validator (transition table read from the literal / abstract interpretation of the boolean slice expression / exploration of loop-head configurations over the syntax tree), product construction with shortest distinguishing string',
+    text='Decides, for every (check_fn, regex) pair in the CHARACTER_DATA literal, equality of the accepted language with the language of the published regex over ALL byte strings (not samples), and absence of index panics in the validator; refuted pairs are reported with a shortest distinguishing string (six validators of the pinned tree accepted supersets and were repaired by fix: commits; all 29 pairs are proven equal on the current tree).',
+    note='Trusted: syn + asd-syn, the regex parser (XSD semantics: "." excludes \\n and \\r) and automata library, the validator readers (table shape, abstract interpretation of slice expressions, configuration exploration of single-loop validators in rules/foldinterp.py; fail closed outside the fragment; the table reading and the explored reading are compared on every run). obligations = pairs + engine-agreement obligations; discharged = obligations on the current tree.',
     ref='§4 C19')
 
 CLAIMS['C18'] = dict(level='proof', technique='exact finite decision over literal tables extracted from the syntax tree (bijections, index ranges, acyclicity, perfect-hash totality via a source-tied arithmetic model) + MIR structure rules (comparison dominates transmute, sibling listing/lookup column agreement, table-index provenance)',
@@ -35,11 +35,11 @@ CLAIMS['C04'] = dict(level='other', technique='MIR event pairing of structural e
     ref='§4 C04')
 
 CLAIMS['C05'] = dict(level='other', technique='MIR event pairing of reference-text writes and subtree edits with reverse-map maintenance (dominance / all-paths incl. error exits), Engler-style deviance rule on HashMap::insert, sibling column agreement between the invalid-reference report and the resolver',
-    text='Decides that every write of a reference text and every subtree insertion/removal is paired with the matching edit of reference_origins on all paths, that no exit separates the index edit from the text write, that no referrer list is silently overwritten (found and repaired: rename/move dropped pre-existing referrers of the new path), and that check_references and get_reference_target apply the same four tests. Does not decide map = references in the tree after histories.',
+    text='Decides that every write of a reference text and every subtree insertion/removal is paired with the matching edit of reference_origins on all paths, that no exit separates the index edit from the text write, that no referrer list is silently overwritten (found and repaired: rename/move dropped pre-existing referrers of the new path), and that check_references and get_reference_target apply the same four tests. Does not decide map = references in the tree after histories. Also: retargeting a reference removes the referrer from the old list and adds it to the new list under one write lock of the model (no window in which the reference is in no list).',
     note='Path-insensitive: value-dependent pattern failures (non-string value, not a reference) are cut as infeasible edges and listed in the rule; identity by co-occurrence + variable provenance.',
     ref='§4 C05')
 CLAIMS['C06'] = dict(level='other', technique='ordered must-pass-through obligations (dominance / all-Ok-paths) on the MIR of the rename and the two move workers, provenance of the rewrite loop iterable and of key vs. text',
-    text='Decides that on the item-name path and both move paths every Ok path performs all maintenance steps in order (re-key path index, rewrite every referrer, re-key the referrer map, register in the destination), that the rewrite loop runs over exactly the paths collected from the moved subtree before unlinking, and that rewritten text and stored key agree. Does not decide that each reference resolves to the same object afterwards.',
+    text='Decides that on the item-name path and both move paths every Ok path performs all maintenance steps in order (re-key path index, rewrite every referrer, re-key the referrer map, register in the destination), that the rewrite loop runs over exactly the paths collected from the moved subtree before unlinking, and that rewritten text and stored key agree. Does not decide that each reference resolves to the same object afterwards. Also (premises shared with C04/C05): the re-keying of the path index scans every key, and no operation on the referrer map replaces or drops a list that may hold referrers.',
     note='Scoped to ElementRaw::{set_item_name, move_element_local, move_element_full} and their public entry points.',
     ref='§4 C06')
 
@@ -49,7 +49,7 @@ CLAIMS['C15'] = dict(level='other', technique='static lock-order analysis: guard
     ref='§4 C15')
 
 CLAIMS['C02'] = dict(level='other', technique='closed-world ledger over the call-graph closure of the loader entry points: every MIR Assert terminator and every call of a panicking library entry point is enumerated and discharged by an automatic rule (dominating compare, usize+const, table index proven by C18) or a reviewed guard with machine-checked guard facts; loop-progress and recursion analysis; who-writes rule for error line numbers; sibling agreement of header probe and loader',
-    text='Decides that the set of panic-capable operations reachable from load_buffer/load_file/check_buffer/check_file is closed and fully discharged (three confirmed panics were repaired by fix: commits), that every loop in the closure makes progress, whether recursion depth is input controlled (it is: known finding, stack exhaustion confirmed), that errors carry the live line counter, and that the header probe performs a prefix of the loader on the whole buffer. Does not prove the reviewed guards for all byte strings.',
+    text='Decides that the set of panic-capable operations reachable from load_buffer/load_file/check_buffer/check_file is closed and fully discharged (three confirmed panics were repaired by fix: commits), that every loop in the closure makes progress, whether recursion depth is input controlled (it is: known finding, stack exhaustion confirmed), that errors carry the live line counter, and that the header probe performs a prefix of the loader on the whole buffer. Does not prove the reviewed guards for all byte strings. Readers of the lexer count as loop progress only when every return path has moved the read position or carries an error (must-advance summary).',
     note='Reviewed entries (tables/panic_ledger.json) are trusted value arguments; each lists guard facts (a comparison on a named variable, a call) that must still be present. A new panic-capable operation in the closure is reported until reviewed (closed world).',
     ref='§4 C02')
 CLAIMS['C12'] = dict(level='other', technique='single-thread reading of the static lock graph (self-deadlock: same object or aliasable arguments without == guard; spurious errors: try/timed acquisition of a possibly held object), closed panic ledger / loop progress / recursion over all public entry points, exhaustive data rule over the specification tables',
